@@ -33,11 +33,43 @@ COPY_OPS = [":", "D", "Ḃ", "→a", "←a", "→b", "←b", "£", "¥", "⅛", 
 CTX_OPS = {"λ2|_ _ n;†": (2, "list"), "λ2|+ n;†": (2, "list"), "λ2|$ _ n $ _;†": (2, "list"), "λ3|_ _ _ n;†": (3, "list"),
            "λ_ n;†": (1, "arg"), "λ› n $ _;†": (1, "arg")}
 # pairs of scalar -> list applications whose results may share hidden state (caches, memo tables)
+# elements that PUSH a value whose denotation is known independently of the implementation (first OBS_LIMIT items)
+def _primes(k):
+    out, c = [], 2
+    while len(out) < k:
+        if all(c % p for p in out):
+            out.append(c)
+        c += 1
+    return out
+
+
+def _fib(k):
+    out, a, b = [], 1, 1  # Vyxal's ÞF starts 1, 1, 2, 3, ...
+    while len(out) < k:
+        out.append(a)
+        a, b = b, a + b
+    return out
+
+
+def _fact(k):
+    out, f = [1], 1  # Vyxal's Þ! starts with 0! : 1, 1, 2, 6, ...
+    for i in range(1, k):
+        f *= i
+        out.append(f)
+    return out[:k]
+
+
+KNOWN_SOURCES = {"Þp": _primes, "Þ∞": lambda k: list(range(1, k + 1)), "ÞF": _fib, "Þ!": _fact,
+                 "5ɾ": lambda k: [1, 2, 3, 4, 5][:k], "4ʀ": lambda k: [0, 1, 2, 3, 4][:k]}
+# loops that walk a list and leave early (a for loop over an infinite list is legal as long as it breaks)
+LOOP_RECIPES = ["( n 6 > [ X ] )", "( n ⅛ ¾ L 3 > [ X ] )", "( n 2 > [ X ] n _ )", "( X )", "( n 4 = [ X ] )"]
 RELATED = [("5 2 τ", "5 N 2 τ"), ("6 K", "6 N K"), ("6 b", "6 N b"), ("3 ɾ", "3 N ɾ"), ("12 Ǐ", "12 N Ǐ"), ("5 2 τ", "5 2 τ"),
            ("⟨⟩ Þr", "⟨⟩ Þr"), ("7 f", "7 N f"), ("3 ʀ", "3 ʀ"), ("4 3 τ", "4 N 3 τ"), ("⟨⟩ Ṫ", "⟨⟩ Ṫ"), ("2 3 r", "3 2 r")]
 # Q exits; ¨U is a no-op offline; □ reads stdin lines; ¨… does not compile; ¢ øV øo loop on C-level string
 # doubling that neither the step clock nor the size guard at pop() can see
-EXCLUDED = {"Q", "¨U", "□", "¨…", "¢", "øV", "øo"}
+# Ṅ (integer partitions) nests one lazy generator per unit of its argument: thousands of live generators whose
+# finalisation alone takes minutes
+EXCLUDED = {"Q", "¨U", "□", "¨…", "¢", "øV", "øo", "Ṅ", "øṖ"}
 FN_POOL = ["λ›;", "λ2*;", "λ₂;", "λ2|+;", "λ:;", "λd;", "λ1;", "λ2|$;", "λN;", "λh;"]
 STRUCT_ELEMS = ["@f:1| 0 9 Ȧ ; @f;", "@g:a| ←a Ṙ ; @g;", "@h:1| : J ; @h;", "( i | ←i 1 J _ )", "ƛ›;", "ƛd;", "'₂;", "'1;", "µN;", "v›", "vd", "ƒ+", "ɖ+", "⁽›M", "⁽₂F", "( n )", "( n ⅛ )",
                 "ƛ:Ṙ;", "ƛ0 9 Ȧ;", "ƛ1 J;", "λ2|+; Ḟ", "⁽› ẇ", "‡›d M", "ƛn;", "~₂", "₌Lh", "₍ht"]
@@ -45,7 +77,7 @@ STRUCT_ELEMS = ["@f:1| 0 9 Ȧ ; @f;", "@g:a| ←a Ṙ ; @g;", "@h:1| : J ; @h;",
 
 # well-typed applications of list-transforming elements (the top of the stack is the list): used by the "recipes"
 # pool, which alternates them with sharing ops and often applies the same recipe twice (multi-step histories)
-RECIPES = ["Þr", "ÞR", "Ṫ Þr", "0 9 Ȧ", "1 7 Ȧ", "⟨0|1⟩ 5 Ȧ", "0 λ›; ¨M", "⟨0|1⟩ λd; ¨M", "1 8 Ṁ", "0 9 Ṁ", "9 J", "9 p", "⟨8|9⟩ J", "Ṙ", "s", "U", "Ḣ", "Ṫ",
+RECIPES = ["λ2|+; M", "λ2|-; M", "λ2|$; M", "λ3|+ +; M", "λ2|+; M L", "Þr", "ÞR", "Ṫ Þr", "0 9 Ȧ", "1 7 Ȧ", "⟨0|1⟩ 5 Ȧ", "0 λ›; ¨M", "⟨0|1⟩ λd; ¨M", "1 8 Ṁ", "0 9 Ṁ", "9 J", "9 p", "⟨8|9⟩ J", "Ṙ", "s", "U", "Ḣ", "Ṫ",
            "ḣ", "ṫ", "f", "1 Ǔ", "1 ǔ", "2 ẇ", "2 Ẏ", "1 ȯ", "∩", "›", "d", "N", "1 +", "¦", "¯", "K", "ė", "z", ": Z", ": Y",
            "2 ẋ", "÷", "y", "0 i", "1 ⟇", "9 o", "ÞḊ", "Þf", "Ġ", "⇧", "⇩", "ÞU", "ṗ", "2 l", "Ċ", "∑", "G", "g", "h", "t", "L",
            "m", "øṁ", "Þ…" if False else "L", "λ›; M", "λ₂; F", "µN;", "ƒ+", "ɖ+", "v›", "Ḃ", "W", "ÞD" if False else "w"]
@@ -73,10 +105,11 @@ class C10(core.Check):
     id = "C10"
     title = "Values are immutable: no element changes a value another reference can see"
     tiers = {
-        "quick": dict(runs=40_000, batch=400, wall=85, batch_timeout=900),
+        "quick": dict(runs=32_000, batch=400, wall=85, batch_timeout=150),
         "thorough": dict(runs=360_000, batch=500, wall=840, batch_timeout=1800),
     }
-    components_real = ["vyxal/elements.py (every key of the element table, minus Q, ¨U, □, ¨…)", "vyxal/helpers.py "
+    per_run_timeout = 20
+    components_real = ["vyxal/elements.py (every key of the element table, minus Q, ¨U, □, ¨…, ¢, øV, øo, Ṅ, øṖ)", "vyxal/helpers.py "
                        "(deep_copy, pop, vectorise paths)", "vyxal/LazyList.py", "vyxal/transpile.py, lexer, parser (every "
                        "event is real program text)"]
     components_stub = ["stdin (EOF)", "random (seeded)", "datetime (simulated)", "secrets (counter)"]
@@ -86,7 +119,7 @@ class C10(core.Check):
         "function values are outside the statement's argument domain (stored_arity set on a shared lambda is not judged)",
         "an APPLY that raises, exits or exceeds a budget ends the run without a verdict",
         "lazy values are compared on their first 60 items per level (infinite results are legal)",
-        "values larger than 2^12 / longer than 400 items trip the simulated allocation limit and discard the run",
+        "values larger than 2^12 / longer than 100 items trip the simulated allocation limit and discard the run",
     ]
     rule = ("one run = a model value (nested lists of ints / rationals / short strings, depth <= 3, length <= 5) built in a "
             "seeded representation (eager / lazy over list, generator or map / partly forced / lazy nested parts), placed "
@@ -100,7 +133,7 @@ class C10(core.Check):
         self.m = world.install_seams()
         world.CLOCK.install()
         world.MAX_BITS = 12
-        world.MAX_LEN = 400
+        world.MAX_LEN = 100
         self.LazyList = self.m["LazyList"].LazyList
         table = self.m["elements"].elements
         self.table = {k: v[1] for k, v in table.items() if k not in EXCLUDED}
@@ -166,6 +199,14 @@ class C10(core.Check):
             # share, transform one reference, share again, transform again (often with the same recipe), observe
             fav = rs.choice(RECIPES)
             pair = rs.choice(RELATED) if rs.random() < 0.3 else None
+            if rs.random() < 0.25:
+                # a list whose items are known by definition (primes, naturals, ...), shared, walked by a loop that
+                # leaves early, then read through the other reference
+                events.append(["source", rs.choice(sorted(KNOWN_SOURCES))])
+                events.append(["copy", rs.choice([":", "→a", "£", "⅛", ":"])])
+                if events[-1][1] != ":":
+                    events.append(["copy", {"→a": "←a", "£": "¥", "⅛": "¾"}[events[-1][1]]])
+                events.append(["apply", [rs.choice(LOOP_RECIPES)]])
             for _ in range(rs.randint(2, 6)):
                 x = rs.random()
                 if pair is not None and x < 0.6:
@@ -331,7 +372,7 @@ class C10(core.Check):
             for r in refs:
                 if not r.lazy:
                     now = snap(r.obj)
-                    if now != r.eager_snap:
+                    if now != r.eager_snap and not (self.foreign(now) or self.foreign(r.eager_snap)):
                         return fail("mutated", r, "an eager list changed in place", now, r.eager_snap, culprit)
             return None
 
@@ -370,6 +411,8 @@ class C10(core.Check):
             want = classes[r.cls]
             if want is not None and self.has_lazy(want):
                 want = resolve(want)
+            if want is not None and (self.foreign(want) or self.foreign(got)):
+                want = None  # the value contains something that is not a Vyxal value (a Python range, None, a float, nan)
             if want is None:
                 classes[r.cls] = got
                 return None
@@ -439,6 +482,11 @@ class C10(core.Check):
 
         for eno, ev in enumerate(case["events"]):
             kind = ev[0]
+            if kind == "source":
+                kind = "copy"
+                known_src = KNOWN_SOURCES.get(ev[1])
+            else:
+                known_src = None
             if kind in ("copy", "apply"):
                 text = ev[1] if kind == "copy" else " ".join(ev[1])
                 last_stmt = text
@@ -488,7 +536,11 @@ class C10(core.Check):
                                     old = ro.cls
                                     ro.cls = rs_.cls
                                     classes.pop(old, None)
-                if expect_top is not None and any(m_ in core.jdump(expect_top) for m_ in ('"?"', '["f",', '["sym",')):
+                if known_src is not None and w.stack and isinstance(w.stack[-1], LL):
+                    rt = by_id.get(id(w.stack[-1]))
+                    if rt is not None and rt.born == eno:
+                        classes[rt.cls] = known_src(OBS_LIMIT)
+                if expect_top is not None and self.foreign(expect_top):
                     expect_top = None  # something that is not a Vyxal value (None, a Python object) is on the stack
                 if expect_top is not None and w.stack and isinstance(w.stack[-1], (list, LL)):
                     rt = by_id.get(id(w.stack[-1]))
@@ -579,6 +631,11 @@ class C10(core.Check):
                 return f.numerator if f.denominator == 1 else ["q", f.numerator, f.denominator]
             return [self.norm(x) for x in v]
         return v
+
+    def foreign(self, s):
+        """does this structure contain something outside the statement's value domain (ints, rationals, strings, lists)?"""
+        j = core.jdump(s)
+        return '"?"' in j or '["f",' in j or '["sym",' in j or '"deep"' in j
 
     def has_lazy(self, s):
         if isinstance(s, list):
